@@ -157,7 +157,7 @@ func TestVerif_C06(t *testing.T) {
 	prod, _ := c02Product()
 	stride := pick(r, 11, 1)
 	r.Parallel(len(prod), func(l *Local) {
-		if (l.Batch+int(r.Seed))%stride == 0 {
+		if r.visit(l.Batch, stride) {
 			c06Run(r, l, prod[l.Batch])
 		}
 	})
